@@ -4,10 +4,10 @@ package main
 
 import (
 	"fmt"
-	"strings"
 	"go/token"
 	"go/types"
 	"math/big"
+	"strings"
 
 	"golang.org/x/tools/go/ssa"
 )
@@ -123,8 +123,8 @@ func (e *Engine) globalConstInit(gl *ssa.Global, lay *Layout) map[int]string {
 	return out
 }
 
-func (e *Engine) onStore(g *Gen, x *ssa.Store, addr *Val)           {}
-func (e *Engine) onMake(g *Gen, x ssa.Value, id string)              {}
+func (e *Engine) onStore(g *Gen, x *ssa.Store, addr *Val) {}
+func (e *Engine) onMake(g *Gen, x ssa.Value, id string)   {}
 func (e *Engine) onReturn(g *Gen, x *ssa.Return) {
 	if p, ok := g.ghost["$pending"]; ok && g.fn.Parent() == nil {
 		g.obligeNamed(fmt.Sprintf("%s#proto.joined@ret%d", g.unit, g.kcnt["ret"]), "proto.join", fmt.Sprintf("(= %s 0)", p), x.Pos(),
@@ -238,7 +238,7 @@ func indexOf(b *ssa.BasicBlock, ins ssa.Instruction) int {
 // allocated per iteration; for variables allocated outside the loop it is a later write).
 func (g *Gen) sameLoopLater(a, b *ssa.BasicBlock) bool { return false }
 
-func (e *Engine) goStatic(g *Gen, x *ssa.Go) bool           { return false }
+func (e *Engine) goStatic(g *Gen, x *ssa.Go) bool                                     { return false }
 func (e *Engine) goSends(g *Gen, x *ssa.Go, fn *ssa.Function, ct *Contract, env *Env) {}
 func (e *Engine) onSend(g *Gen, x *ssa.Send) {
 	g.errs = append(g.errs, "outside subset: channel send without a protocol rule")
@@ -281,7 +281,8 @@ func (e *Engine) specGhostCall(g *Gen, env *Env, fn string, args []*Expr, ex *Ex
 func (e *Engine) ghostModifies(g *Gen, env *Env, m *Clause) bool {
 	return m.E.Op == "call" && m.E.Args[0].Op == "id" && m.E.Args[0].Tok == "ghost"
 }
-func (e *Engine) ghostCallEffect(g *Gen, ct *Contract, env *Env)                 {}
+func (e *Engine) ghostCallEffect(g *Gen, ct *Contract, env *Env) {}
+
 // ghostDynCall: a call of a function-typed parameter / captured variable. The callee is arbitrary caller code:
 // the heap is havocked except the objects the contract declares `private` (locals of the enclosing function
 // that never escape to it). The call is recorded in ghost $dyn_n (count) and $dyn_a<i> (arguments of the last call).
@@ -322,7 +323,7 @@ func (e *Engine) ghostDynCall(g *Gen, cc *ssa.CallCommon, pos token.Pos) *Val {
 	g.assumedUsed["calls of function-typed parameters are arbitrary code that cannot reach the objects declared private (non-escaping locals of the enclosing function)"] = true
 	return g.havocVal(resT, "dyn")
 }
-func (e *Engine) ghostCallContract(g *Gen, cc *ssa.CallCommon) *Contract       { return nil }
+func (e *Engine) ghostCallContract(g *Gen, cc *ssa.CallCommon) *Contract { return nil }
 func (e *Engine) specialCall(g *Gen, callee *ssa.Function, cc *ssa.CallCommon, args []*Val, resT types.Type, pos token.Pos) (*Val, bool) {
 	switch funcKey(callee) {
 	case "sync.WaitGroup.Wait":
